@@ -326,11 +326,29 @@ def main():
     for sp in specs:
         sp['dt'], sp['props'] = None, None
     specs += [{'kind': 'point', 'c': (1.0, 2.0, 0.0)}, {'kind': 'line', 'vs': [(0.0, 0.0, 0.0), (1.0, 1.0, 2.0)]}]     # D14, model faithful
+    def touch_vertices(o):
+        """read-only uses of the shape's own Coordinate objects (labels in the other order, tuples) before writing:
+        the text must not depend on them"""
+        cs = []
+        for attr in ('coordinate', 'vertices', 'outline', 'nw_bound', 'se_bound'):
+            v = getattr(o, attr, None)
+            if v is not None:
+                cs += v if isinstance(v, list) else [v]
+        for m_ in getattr(o, 'geoshapes', []) or []:
+            touch_vertices(m_)
+        for h_ in getattr(o, 'holes', []) or []:
+            touch_vertices(h_)
+        for c_ in cs[:3] + cs[-1:]:
+            guarded(lambda: (c_.to_str(reverse=True), c_.to_float(reverse=True), c_.to_str(), str(c_)))
+
     for n, spec in enumerate(specs):
         spec.setdefault('dt', None)
         spec.setdefault('props', None)
         kind = spec['kind']
         obj = G.build(spec, style=n)
+        if n % 3 == 1:
+            touch_vertices(obj)
+            ck.count('written after read-only uses of its coordinates')
         text = obj.to_wkt()
         m = {'op': 'write', 'kind': kind, 'spec': spec, 'text': text, 'style': n}
         try:
@@ -349,9 +367,9 @@ def main():
                 pyviol.append((m, 'shapeless_write', f'{type(obj).__name__}.to_wkt() = {text!r} but its polygon form writes {pt!r}'))
             continue
         tag = TAG[kind]
-        r = guarded(lambda: SIMPLE[kind].from_wkt(text))
+        r = run_impl(lambda: SIMPLE[kind].from_wkt(text))
         add(f'KRead {tag} {wl} {reslit(r, lambda s: G.obs_geom(s, Q))}', dict(m, op='read'))
-        r2 = guarded(lambda: parse_wkt(text))
+        r2 = run_impl(lambda: parse_wkt(text))
         add(f'KParseTok {wl} {reslit(r2, lambda s: G.obs_geom(s, Q))}', dict(m, op='parse_tok'))
         chars_case(tag, text, 'written', kind, {'spec': spec})
         chars_case(None, text, 'written', kind, {'spec': spec})
@@ -407,14 +425,14 @@ def main():
         wl = wkt_lit(tok, L)
         glit, _, _ = G.geom_lit(spec, obj, L)
         add(f'KWrite [] [] {glit} None {wl}', m)
-        r = guarded(lambda: SIMPLE[kind].from_wkt(text))
+        r = run_impl(lambda: SIMPLE[kind].from_wkt(text))
         add(f'KRead {TAG[kind]} {wl} {reslit(r, lambda s: G.obs_geom(s, L))}', dict(m, op='read'))
         chars_case(TAG[kind], text, 'magnitudes', kind, {'spec': spec})
         chars_case(None, text, 'magnitudes', kind, {'spec': spec})
         nontrivial.add(('mag', text))
         if r[0] != 'Ok' or not (r[1] == obj and obj == r[1]):
             pyviol.append((m, 'wkt_roundtrip', f'Type.from_wkt({text!r}) -> {r}: not the shape that wrote it'))
-        r2 = guarded(lambda: parse_wkt(text))
+        r2 = run_impl(lambda: parse_wkt(text))
         if r2[0] != 'Ok' or r2[1] != obj:
             pyviol.append((m, 'wkt_roundtrip', f'parse_wkt({text!r}) -> {r2}: not the shape that wrote it'))
 
@@ -435,7 +453,7 @@ def main():
             kl = 'None' if k is None else f'(Some {k})'
             add(f'KWrite {G.tablit(outer, L)} {G.tablit(inner, L)} {glit} {kl} {wl}', m)
             nontrivial.add(('curved', n, k))
-            back = guarded(lambda: parse_wkt(text))
+            back = run_impl(lambda: parse_wkt(text))
             if back[0] != 'Ok' or not isinstance(back[1], GeoPolygon):
                 pyviol.append((m, 'shapeless_write', f'text written by {type(obj).__name__} is not read back as a polygon: {back}'))
             if spec['kind'] != 'ring':
@@ -470,7 +488,7 @@ def main():
             except Exception as ex:   # noqa
                 continue
             for how, fn in (('Type.from_wkt', lambda: SIMPLE[spec['kind']].from_wkt(stext)), ('parse_wkt', lambda: parse_wkt(stext))):
-                back = guarded(fn)
+                back = run_impl(fn)
                 if back[0] != 'Ok' or not back[1] == obj.copy().strip_dt():
                     pyviol.append((dict(m, shapely_text=stext[:300]), 'independent_writer',
                                    f'{how} of the text Shapely writes for the shape gives {back[1] if back[0] != "Ok" else "another shape"}'))
@@ -487,9 +505,9 @@ def main():
         tok = tokenize(text)
         wl = wkt_lit(tok, Q)
         for kind, tag in TAG.items():
-            r = guarded(lambda: SIMPLE[kind].from_wkt(text))
+            r = run_impl(lambda: SIMPLE[kind].from_wkt(text))
             add(f'KRead {tag} {wl} {reslit(r, lambda s: G.obs_geom(s, Q))}', {'op': 'read', 'kind': kind, 'text': text, 'origin': 'special'})
-        r = guarded(lambda: parse_wkt(text))
+        r = run_impl(lambda: parse_wkt(text))
         add(f'KParseTok {wl} {reslit(r, lambda s: G.obs_geom(s, Q))}', {'op': 'parse_tok', 'kind': 'parse', 'text': text, 'origin': 'special'})
     # valid base texts.  The polygon / multilinestring / multipolygon gates still backtrack exponentially on a match
     # that fails deep in the text (3 s for a 100-character polygon with one stray character, also after repair
@@ -564,7 +582,7 @@ def main():
     # ---- regression for repair D33 (Z values of 1000 and above): a violation if it returns
     for text, zs in (('POINT(1.0 2.0 1500.5)', [1500.5]), ('MULTIPOINT(6.5 0.1 12345.678, 1.0 0.5)', [12345.678, None]),
                      ('LINESTRING(1.0 2.0 1000.0,3.0 4.0 123456789.25)', [1000.0, 123456789.25])):
-        r = guarded(lambda: parse_wkt(text))
+        r = run_impl(lambda: parse_wkt(text))
         got = None
         if r[0] == 'Ok':
             s_ = r[1]
